@@ -96,6 +96,7 @@ class Registry:
         self.classes: dict[str, ClassInfo] = {}
         self.opaque: set[str] = set()
         self.consts: dict[str, object] = {}
+        self.maplike: set[str] = set()  # classes whose .map(f, xs) is assumed to be [f(x) for x in xs]
         self.exc_bases: dict[str, list[str]] = {
             "Exception": [],
             "AssertionError": ["Exception"],
